@@ -8,7 +8,8 @@ For each out/mutant{i}.diff produced by an independent sub-agent in <worktree>:
 """
 import json, os, subprocess, sys, shutil, re
 prop, wt = sys.argv[1], sys.argv[2]
-checks = sys.argv[3:] or [prop]
+confirm_only = '--confirm-only' in sys.argv  # confirmation in the scratch worktree only; the checks are then run by tools/mutant_farm.py
+checks = [c for c in sys.argv[3:] if not c.startswith('--')] or [prop]
 env = dict(os.environ, CARGO_TARGET_DIR=os.path.join(wt, "target"), CARGO_NET_OFFLINE="true")
 def sh(cmd, cwd=None, env=env):
     return subprocess.run(cmd, shell=True, text=True, capture_output=True, cwd=cwd, env=env)
@@ -42,7 +43,7 @@ for i in (1, 2, 3):
     print(f"{prop}-{i}: demo passes on clean={clean_pass} fails with mutant={mutant_fail} repo suite passes with mutant={suite_pass}", flush=True)
     # run the /verif checks against it
     results = {}
-    if confirmed:
+    if confirmed and not confirm_only:
         r = subprocess.run(["/verif/tools/try_patch.sh", d] + checks, text=True, capture_output=True)
         for line in r.stdout.splitlines():
             m = re.match(r"(C\d\d) exit=(\d+)(.*)", line)
